@@ -259,6 +259,20 @@ def count_oracle(ctx, quick):
                 if sl > 2.5 and big[-1][1] > 1.0:
                     ctx.fail("time:superquadratic", "three-run family %r: CPU time grows with exponent %.2f (%s) under %s" % (f, sl, {n: round(v, 3) for n, v in pts}, cfg["name"]), rep)
     tasks += ttasks
+    # a raised nesting limit: hooks and renderers that walk the token tree must stay linear in the depth
+    deep_cfg = configs.C("limit40-all", plugins=configs.PLUGINS, max_nested=40)
+    dfams = [("- ", "[ ] x", ""), ("> ", "x", ""), ("1. ", "x", ""), ("- > ", "x", ""), ("- ", "- [x] t\n", ""), (">! ", "x", "")]
+    dsizes = [8, 16, 32]
+    for rcfg in (deep_cfg, dict(deep_cfg, name="limit40-ast", renderer="ast"), dict(deep_cfg, name="limit40-markdown", renderer="markdown", plugins=[])):
+        dres = worker.run_all([(rcfg, f[0] * n + f[1], 8.0) for f in dfams for n in dsizes], workers=14)
+        for i, f in enumerate(dfams):
+            ts = [r.get("cpu") if r["status"] == "ok" else r["status"] for r in dres[i * 3:(i + 1) * 3]]
+            rep = {"prefix": "", "unit": f[0], "suffix": f[1], "config": rcfg, "cpu_s": dict(zip(map(str, dsizes), ts))}
+            if "timeout" in ts:
+                k = dsizes[ts.index("timeout")]
+                ctx.fail("work:tiny-input-timeout:deep-nesting", "%d nested containers %r (%d characters) do not convert within 8 s under %s (nesting limit 40)" % (k, f[0], len(f[0] * k + f[1]), rcfg["name"]), rep)
+            elif all(isinstance(t, float) for t in ts) and ts[2] > 0.5 and ts[2] > 20 * max(ts[1], 1e-3):
+                ctx.fail("time:exponential:deep-nesting", "nested containers %r under %s: CPU time %s for depth %s" % (f[0], rcfg["name"], [round(t, 4) for t in ts], dsizes), rep)
     ctx.cov["timed_three_run_families"] = len(tfams)
     ctx.cov["count_families"] = len(fams)
     ctx.cov["worst_handler_growth_per_doubling"] = round(worst, 2)
@@ -353,7 +367,8 @@ def include_timing(ctx):
     return n_eval
 
 
-FOCUS = [("<x ", "a=b\tc\t", ""), ("a <x ", "a=b\nc ", ">"), ("a >!", " ", "b"), ("x >! ", "a ", ""), ("[", "\\*", ""), ("[", "\\", ""), ("a", " ", "b"), ("[a](/u \"", "\\!", ""), ("[^", "\\]", ""), ("[x]: /u '", "\\'", ""), ("<a ", "b=\"c\" ", ""), ("", "a ", "\n"), ("", "  ", "x"),
+FOCUS = [("```{note}\n:class: ", "ab-", ".x\n```\n"), (".. note:: t\n   :class: ", "box-", ".l\n\n   b\n"), (".. image:: p.png\n   :width: ", "1", "x\n"), (".. image:: p.png\n   :alt: ", "a ", "\"\n"),
+         ("```{figure} p.png\n:figclass: ", "a b", "!\n```\n"), (".. toc::\n   :max-level: ", "1", "x\n"), ("```{note} ", "T-", "\n```\n"), (".. image:: ", "a/", " b\n"), ("<x ", "a=b\tc\t", ""), ("a <x ", "a=b\nc ", ">"), ("a >!", " ", "b"), ("x >! ", "a ", ""), ("[", "\\*", ""), ("[", "\\", ""), ("a", " ", "b"), ("[a](/u \"", "\\!", ""), ("[^", "\\]", ""), ("[x]: /u '", "\\'", ""), ("<a ", "b=\"c\" ", ""), ("", "a ", "\n"), ("", "  ", "x"),
          ("*[", "\\]", ""), ("", "\\\n", ""), ("", " \t", "x")]
 
 
